@@ -24,11 +24,20 @@
                                                      code holds no random state outside them is tested).
   Both are VALIDATED on every run by `harness/c09.py` (goodness-of-fit with finite-sample thresholds
   at run-wise false-alarm 1e-9; each random path run twice under `pcvl.random_seed`) and labelled
-  as validation in the evidence; no theorem here carries them.
+  as validation in the evidence.
+
+  EXTENSION (end of this file): the first `…` is now reduced to theorems about the model of
+  `NoisySamplingSimulator.samples` as a function of its random draws (`Model/C09Run.lean`): the pooled provider
+  refines a lazy one on value-independently permuted streams, one lazy shot has the strong-simulation law of
+  `Found/SimSpec`, the accepted samples of N independent shots are i.i.d. from `conditioned`, the expected tallies
+  give the two performances — see the section "EXTENSION" for the exact statements and for the two standard
+  measure-theoretic facts that are NOT formalised.  The model is tied to the code by an exact replay of recorded
+  real draws (harness part F).  The drawing conversions (`Model/C09Conv.lean`) have their own section.
 -/
 import PercevalModel.Lemmas.C09
 import PercevalModel.Lemmas.C09Spec
 import PercevalModel.Lemmas.C09Conv
+import PercevalModel.Lemmas.C09Iter
 import Mathlib.Algebra.Order.Field.Rat
 import Mathlib.Tactic.FieldSimp
 import Mathlib.Tactic.Positivity
@@ -936,6 +945,86 @@ theorem counts_probs_counts_roundtrip (cs : List ℤ) (hnn : ∀ c ∈ cs, 0 ≤
     rw [Int.toNat_of_nonneg hT.le]; omega
   simp only [hd, lt_self_iff_false, ↓reduceIte]
 
+
+/-! ## EXTENSION: `Sampler` iterations (`Model/C09Iter.lean`) -/
+
+/-- **every iteration of a local batch job runs under the limits and the configuration it describes**, for all
+configurations, iteration lists and requests: the k-th `processor.samples` call gets `max_samples`, `max_shots`,
+filter, input and noise from the k-th iteration where it names them and otherwise from the sampler / processor as
+they were when the job started — in particular the `max_shots_per_call` of the sampler when neither the call nor
+the iteration gives a shot limit (the repaired behaviour) — whatever the other iterations are; and the job leaves
+the processor's configuration and the sampler's shot limit as it found them. -/
+theorem iterations_run_under_their_own_limits (c : SCfg) (maxSamplesArg : Option Nat) (its : List Iter)
+    (calls : List SCfg) (cf : SCfg) (h : samplesIterate true c none maxSamplesArg its = .ok (calls, cf)) :
+    calls.map noParams = its.map (fun it => noParams (applyIt
+      { c with maxSamples := some (maxSamplesArg.getD samplesMax) } it
+      { c with maxSamples := some (maxSamplesArg.getD samplesMax) })) ∧
+    (∀ (k : Nat) (call : SCfg) (it : Iter), calls[k]? = some call → its[k]? = some it →
+      call.maxShots = (match it.maxShots with | some v => some v | none => c.maxShots) ∧
+      call.maxSamples = (match it.maxSamples with | some v => some v | none => some (maxSamplesArg.getD samplesMax))) ∧
+    cf = { c with maxSamples := some (maxSamplesArg.getD samplesMax) } := by
+  unfold samplesIterate at h
+  simp only [↓reduceIte] at h
+  split at h
+  · simp at h
+  · simp only [Except.ok.injEq, Prod.mk.injEq] at h
+    obtain ⟨h1, h2⟩ := h
+    have hd : ({ c with maxSamples := some (maxSamplesArg.getD samplesMax), maxShots := c.maxShots } : SCfg) =
+        { c with maxSamples := some (maxSamplesArg.getD samplesMax) } := rfl
+    rw [hd] at h1 h2
+    have hmap := runIts_noParams { c with maxSamples := some (maxSamplesArg.getD samplesMax) } its
+      { c with maxSamples := some (maxSamplesArg.getD samplesMax) }
+    rw [h1] at hmap
+    refine ⟨hmap, ?_, ?_⟩
+    · intro k call it hk hit
+      have e : (calls.map noParams)[k]? = (its.map fun it => noParams (applyIt
+          { c with maxSamples := some (maxSamplesArg.getD samplesMax) } it
+          { c with maxSamples := some (maxSamplesArg.getD samplesMax) }))[k]? := by rw [hmap]
+      simp only [List.getElem?_map, hk, hit, Option.map_some, Option.some.injEq] at e
+      have e1 := congrArg SCfg.maxShots e
+      have e2 := congrArg SCfg.maxSamples e
+      simp only [noParams, applyIt] at e1 e2
+      exact ⟨e1, e2⟩
+    · rw [← h2, applyIt_noIter]
+
+/-- circuit parameters: when every iteration names all the variable parameters (the documented use) or none, each
+iteration runs on exactly the configuration "defaults overridden by this iteration" — no dependence on the
+iterations before it. -/
+theorem iterations_history_independent_when_parameters_full (n : Nat) (c : SCfg) (maxSamplesArg : Option Nat)
+    (its : List Iter) (calls : List SCfg) (cf : SCfg) (hn : c.params.length = n)
+    (hfull : ∀ it ∈ its, fullParams n it = true)
+    (h : samplesIterate true c none maxSamplesArg its = .ok (calls, cf)) :
+    calls = its.map (fun it => applyIt { c with maxSamples := some (maxSamplesArg.getD samplesMax) } it
+      { c with maxSamples := some (maxSamplesArg.getD samplesMax) }) := by
+  unfold samplesIterate at h
+  simp only [↓reduceIte] at h
+  split at h
+  · simp at h
+  · simp only [Except.ok.injEq, Prod.mk.injEq] at h
+    obtain ⟨h1, _⟩ := h
+    rw [← h1]
+    exact runIts_full n { c with maxSamples := some (maxSamplesArg.getD samplesMax) } hn its
+      { c with maxSamples := some (maxSamplesArg.getD samplesMax) } hn hfull
+
+/-- the code as it was: a sampler built with `max_shots_per_call = 5` and holding one iteration ran that iteration
+WITHOUT shot limit and came out of the job with its limit lost -/
+theorem iterations_drop_shot_limit_on_old_code :
+    samplesIterate false ⟨none, some 5, some 1, 0, 0, [7]⟩ none (some 100) [⟨none, none, none, none, none, some [(0, 8)]⟩] =
+      .ok ([⟨some 100, none, some 1, 0, 0, [8]⟩], ⟨some 100, none, some 1, 0, 0, [7]⟩) ∧
+    samplesIterate true ⟨none, some 5, some 1, 0, 0, [7]⟩ none (some 100) [⟨none, none, none, none, none, some [(0, 8)]⟩] =
+      .ok ([⟨some 100, some 5, some 1, 0, 0, [8]⟩], ⟨some 100, some 5, some 1, 0, 0, [7]⟩) := by
+  decide
+
+/-- outside the documented use: an iteration naming only SOME circuit parameters keeps, for the others, the values the
+previous iteration left (`default_it | it` replaces the whole `circuit_params` dictionary) -/
+theorem partial_circuit_params_depend_on_history :
+    (samplesIterate true ⟨none, none, some 1, 0, 0, [0, 0]⟩ none (some 10)
+      [⟨none, none, none, none, none, some [(1, 9)]⟩, ⟨none, none, none, none, none, some [(0, 3)]⟩]).map (·.1.map (·.params)) =
+      .ok [[0, 9], [3, 9]] ∧
+    (samplesIterate true ⟨none, none, some 1, 0, 0, [0, 0]⟩ none (some 10)
+      [⟨none, none, none, none, none, some [(0, 3)]⟩]).map (·.1.map (·.params)) = .ok [[3, 0]] := by
+  decide
+
 /-! ## non-vacuity: the hypotheses of the theorems above are satisfiable and the conclusions are
 about runs that really happen (closed terms evaluated by the kernel) -/
 
@@ -1043,5 +1132,17 @@ example : sampleCountToSamples [false, false, false] [2, 0, 1] none none none [1
 -- … and the round trip [2, 0, 1] → [2/3, ·, 1/3] → [2, 0, 1]
 example : probsToSampleCount (([2, 0, 1] : List ℤ).map (probOf 3) |>.map getQ) [0, 0, 0] 3 [] [] =
     .done false [2, 0, 1] := by decide +kernel
+
+
+-- iterations: a job of two iterations under the hypotheses of `iterations_run_under_their_own_limits` /
+-- `iterations_history_independent_when_parameters_full` (one parameter, named by both iterations)
+example : ∃ calls cf, samplesIterate true ⟨none, some 5, some 1, 0, 0, [7]⟩ none (some 100)
+    [⟨none, some 2, none, none, none, some [(0, 8)]⟩, ⟨some 3, none, none, some 4, none, some [(0, 9)]⟩] = .ok (calls, cf) ∧
+    calls.map (fun c => (c.maxSamples, c.maxShots)) = [(some 100, some 2), (some 3, some 5)] ∧
+    (∀ it ∈ [(⟨none, some 2, none, none, none, some [(0, 8)]⟩ : Iter), ⟨some 3, none, none, some 4, none, some [(0, 9)]⟩],
+      fullParams 1 it = true) :=
+  ⟨_, _, rfl, by decide, by decide⟩
+-- no limit anywhere: the documented RuntimeError
+example : samplesIterate true ⟨none, none, none, 0, 0, []⟩ none none [noIter] = .error "RuntimeError" := by decide
 
 end PM.C09
